@@ -5,6 +5,11 @@ def oracle_slowrefresh(case, impl):
     the newer file, a later lookup must not be answered from the older one."""
     import re
     f = case.split(" ")
+    if f[0] == "slowhosts":
+        if impl != "A=L B=L":
+            return ("%r is listed in the hosts file; of the query that triggered the (slow) load and the one that arrived while it was in "
+                    "progress, answered locally / sent upstream: %s" % (unhex(f[1]), impl))
+        return None
     old, new = unhex(f[3]) + b".", unhex(f[4]) + b"."
     m = re.match(r"A=(\S+) B=(\S+) C=(\S+)$", impl)
     if not m:
@@ -24,7 +29,7 @@ def oracle_slowrefresh(case, impl):
 SPEC = dict(
     lean_module="NV.Props.C15",
     areas=[dict(name="race", n_quick=1, n_thorough=1, race=True, timeout=900),
-           dict(name="slowrefresh", n_quick=6, n_thorough=60, oracle=oracle_slowrefresh, timeout=300)],
+           dict(name="slowrefresh", n_quick=9, n_thorough=60, oracle=oracle_slowrefresh, timeout=300)],
     level_text="Lock discipline by proof over regenerated facts: every access to a field of a mutex-owning struct in discovery, "
                "resolver/endpoint, resolver, arp, ndp is re-extracted from the source with the lock mode held (CFG dataflow, callees "
                "in the caller's state) and the whole table is checked by the kernel; a theorem over an RWMutex model with any number "
